@@ -357,6 +357,34 @@ func zzC09FmtClasses() (tab [256]uint8) {
 	return
 }
 
+// zzC09TabAlpha: parameter and modifier bytes of the tabulate directive.
+const zzC09TabAlpha = "019,@:v#-"
+
+var zzC09TabTab = zzC09MakeTab(zzC09TabAlpha)
+
+// VerifC09FormatTab: the column arithmetic of ~T needs five bytes (~,0@T):
+// control string = prefix text + "~" + n symbolic bytes over 0 1 9 , @ : v # - +
+// "t"; prefix 0 "", 1 "ab", 2 "a" newline "bcd"; two fixnum arguments (for v)
+// from zzC09FmtInts (engine forks).
+func VerifC09FormatTab(n, prefix int) {
+	mid := vrt.Bytes("ctl", n)
+	for i := range mid {
+		vrt.Assume(zzC09TabTab[mid[i]] == 1)
+	}
+	ctl := []byte([]string{"", "ab", "a\nbcd"}[prefix] + "~")
+	ctl = append(ctl, mid...)
+	ctl = append(ctl, 't')
+	var ints []int64
+	form := slip.List{slip.Symbol("format"), nil, slip.String(ctl), zzC09FmtArg(0, 0, &ints), zzC09FmtArg(1, 0, &ints)}
+	zzC09TabCarves(mid, ints)
+	zzC09Streams()
+	zzC09Guarded(slip.NewScope(), form, ints)
+}
+
+// zzC09TabCarves: regions of the recorded findings of C09.format.tab.
+func zzC09TabCarves(mid []byte, ints []int64) {
+}
+
 // zzC09FmtCarves: regions of the recorded findings of C09.format.
 func zzC09FmtCarves(ctl []byte, k0, k1 int, ints []int64) {
 	var kinds []int
@@ -426,6 +454,9 @@ func zzC09Guarded(scope *slip.Scope, form slip.Object, ints []int64) {
 		vrt.Assert(false, "evaluation does not finish: work bounded only by an integer argument (hang / unbounded allocation)")
 		return
 	}
+	if class == zzC09Value {
+		vrt.Reach("value")
+	}
 	zzC09Check(class)
 }
 
@@ -440,7 +471,7 @@ func zzC09Gap(x int64) {
 // ---- (c) index arithmetic ----
 
 // zzC09IdxRow is one call shape.  Placeholders (symbols) in tmpl: S the
-// sequence under test, T a second sequence of the same type (length 2), A B C
+// sequence under test, U a second sequence of the same type (length 2), A B C
 // symbolic fixnums (full range), X an element of S, Y another element value.
 // kinds: which sequence types apply (l list, v vector, s string, b bit-vector);
 // "-" = no sequence (one case).
@@ -465,12 +496,12 @@ var zzC09IdxRows = []zzC09IdxRow{
 	{"(bit S A)", "b"},                                                            // 12
 	{"(sbit S A)", "b"},                                                           // 13
 	{"(fill S Y :start A :end B)", "lvsb"},                                        // 14
-	{"(replace S T :start1 A :end1 B)", "lvsb"},                                   // 15
-	{"(replace S T :start2 A :end2 B)", "lvsb"},                                   // 16
-	{"(search T S :start1 A :end1 B)", "lvs"},                                     // 17
-	{"(search T S :start2 A :end2 B)", "lvs"},                                     // 18
-	{"(mismatch S T :start1 A :end1 B)", "lvsb"},                                  // 19
-	{"(mismatch S T :start2 A :end2 B)", "lvsb"},                                  // 20
+	{"(replace S U :start1 A :end1 B)", "lvsb"},                                   // 15
+	{"(replace S U :start2 A :end2 B)", "lvsb"},                                   // 16
+	{"(search U S :start1 A :end1 B)", "lvs"},                                     // 17
+	{"(search U S :start2 A :end2 B)", "lvs"},                                     // 18
+	{"(mismatch S U :start1 A :end1 B)", "lvsb"},                                  // 19
+	{"(mismatch S U :start2 A :end2 B)", "lvsb"},                                  // 20
 	{"(position X S :start A :end B)", "lvs"},                                     // 21
 	{"(position X S :start A :end B :from-end t)", "lvs"},                         // 22
 	{"(find X S :start A :end B)", "lvs"},                                         // 23
@@ -508,15 +539,15 @@ var zzC09IdxRows = []zzC09IdxRow{
 	{"(nstring-upcase S :start A :end B)", "s"},                                   // 55
 	{"(nstring-downcase S :start A :end B)", "s"},                                 // 56
 	{"(nstring-capitalize S :start A :end B)", "s"},                               // 57
-	{"(string= S T :start1 A :end1 B)", "s"},                                      // 58
-	{"(string= S T :start2 A :end2 B)", "s"},                                      // 59
-	{"(string< S T :start1 A :end1 B)", "s"},                                      // 60
-	{"(string< S T :start2 A :end2 B)", "s"},                                      // 61
-	{"(string-equal S T :start1 A :end1 B)", "s"},                                 // 62
-	{"(string-lessp S T :start2 A :end2 B)", "s"},                                 // 63
-	{"(string/= S T :start1 A :end2 B)", "s"},                                     // 64
-	{"(string> S T :start1 A :end1 B)", "s"},                                      // 65
-	{"(string-not-equal S T :start1 A :end1 B)", "s"},                             // 66
+	{"(string= S U :start1 A :end1 B)", "s"},                                      // 58
+	{"(string= S U :start2 A :end2 B)", "s"},                                      // 59
+	{"(string< S U :start1 A :end1 B)", "s"},                                      // 60
+	{"(string< S U :start2 A :end2 B)", "s"},                                      // 61
+	{"(string-equal S U :start1 A :end1 B)", "s"},                                 // 62
+	{"(string-lessp S U :start2 A :end2 B)", "s"},                                 // 63
+	{"(string/= S U :start1 A :end2 B)", "s"},                                     // 64
+	{"(string> S U :start1 A :end1 B)", "s"},                                      // 65
+	{"(string-not-equal S U :start1 A :end1 B)", "s"},                             // 66
 	{"(parse-integer \"1234\" :start A :end B)", "-"},                             // 67
 	{"(parse-integer S :radix A)", "s"},                                           // 68
 	{"(read-from-string S nil nil :start A :end B)", "s"},                         // 69
@@ -549,7 +580,7 @@ var zzC09IdxRows = []zzC09IdxRow{
 	{"(setf (aref S A) Y)", "vb"},                                                 // 96
 	{"(setf (elt S A) Y)", "lvb"},                                                 // 97
 	{"(setf (nth A S) Y)", "l"},                                                   // 98
-	{"(setf (subseq S A B) T)", "lvb"},                                            // 99
+	{"(setf (subseq S A B) U)", "lvb"},                                            // 99
 	{"(make-string-input-stream S A)", "s"},                                       // 100
 	{"(setf (bit S A) Y)", "b"},                                                   // 101
 	{"(floor A B)", "-"},                                                          // 102
@@ -570,9 +601,9 @@ var zzC09IdxRows = []zzC09IdxRow{
 	{"(make-hash-table :size A)", "-"},                                            // 117
 	{"(nth-value A (values 1 2))", "-"},                                           // 118
 	{"(list-length S)", "l"},                                                      // 119
-	{"(string-left-trim T S)", "s"},                                               // 120
-	{"(concatenate (quote string) S T)", "s"},                                     // 121
-	{"(map-into S (function 1+) T)", "lv"},                                        // 122
+	{"(string-left-trim U S)", "s"},                                               // 120
+	{"(concatenate (quote string) S U)", "s"},                                     // 121
+	{"(map-into S (function 1+) U)", "lv"},                                        // 122
 	{"(boole boole-and A B)", "-"},                                                // 123
 	{"(ldb-test (byte A 2) -5)", "-"},                                             // 124
 	{"(float-sign 1.0 2.0)", "-"},                                                 // 125
@@ -582,10 +613,29 @@ var zzC09IdxRows = []zzC09IdxRow{
 	{"(file-position (make-string-input-stream S) A)", "s"},                       // 129
 	{"(subseq S A A)", "lvsb"},                                                    // 130
 	{"(subseq S A nil)", "lvsb"},                                                  // 131
-	{"(bit-and S T)", "b"},                                                        // 132
+	{"(bit-and S U)", "b"},                                                        // 132
 	{"(bit-not S)", "b"},                                                          // 133
-	{"(bit-xor S T S)", "b"},                                                      // 134
+	{"(bit-xor S U S)", "b"},                                                      // 134
 	{"(expt 2 A)", "-"},                                                           // 135
+	// multi-byte strings (byte offsets versus character indexes), 136..
+	{"(count #\\a \"éa\" :start A)", "-"},                       // 136
+	{"(string-upcase \"éa\" :start A :end B)", "-"},             // 137
+	{"(find #\\a \"éa\" :start A :end B)", "-"},                 // 138
+	{"(position #\\a \"éa\" :start A :end B)", "-"},             // 139
+	{"(subseq \"éa\" A B)", "-"},                                // 140
+	{"(string-downcase \"éa\" :start A :end B)", "-"},           // 141
+	{"(string-capitalize \"éa\" :start A :end B)", "-"},         // 142
+	{"(nstring-upcase (copy-seq \"éa\") :start A :end B)", "-"}, // 143
+	{"(remove #\\a \"éa\" :start A :end B)", "-"},               // 144
+	{"(char \"éa\" A)", "-"},                                    // 145
+	{"(parse-integer \"é12\" :start A :end B)", "-"},            // 146
+	{"(string= \"éa\" \"éb\" :start1 A :end1 B)", "-"},          // 147
+	{"(count #\\a \"éa\" :start A :end B)", "-"},                // 148
+	// empty sequences given to the mapping/merging functions (no integer), 149..
+	{"(merge (quote list) nil (quote (1)) (function <))", "-"}, // 149
+	{"(map (quote list) (function 1+) nil)", "-"},              // 150
+	{"(reduce (function +) nil)", "-"},                         // 151
+	{"(gi:pretty-print (quote (let)) nil)", "-"},               // 152
 }
 
 const zzC09KindChars = "lvsb"
@@ -660,7 +710,7 @@ func VerifC09Index(row, kind, n int) {
 			return
 		}
 		env["S"] = zzC09Quote(zzC09Seq(scope, k, n))
-		env["T"] = zzC09Quote(zzC09Seq(scope, k, 2))
+		env["U"] = zzC09Quote(zzC09Seq(scope, k, 2))
 		switch k {
 		case 's':
 			env["X"] = slip.Character('b')
@@ -928,8 +978,8 @@ func zzC09EvalFunc(scope *slip.Scope, fi *slip.FuncInfo, objs []slip.Object) (cl
 	return zzC09Value
 }
 
-// VerifC09Tuple: function idx of the registry table called with one argument
-// (a0 == -1) or with two (a0 >= 0: pool object a0 first); the (other) argument
+// VerifC09Tuple: function idx of the registry table called without arguments
+// (a0 == -2), with one argument (a0 == -1) or with two (a0 >= 0: pool object a0 first); the (other) argument
 // is pool object a1, a vrt.Choice the engine forks over.
 func VerifC09Tuple(idx, a0 int) {
 	key := zzC09Names[idx]
@@ -940,10 +990,15 @@ func VerifC09Tuple(idx, a0 int) {
 		return
 	}
 	zzC09Streams()
-	a1 := vrt.Choice("a1", zzC09PoolSize)
+	a1 := 0
+	if a0 != -2 {
+		a1 = vrt.Choice("a1", zzC09PoolSize)
+	}
 	scope := slip.NewScope()
 	var objs []slip.Object
-	if a0 < 0 {
+	if a0 == -2 {
+		// the call without arguments
+	} else if a0 < 0 {
 		objs = []slip.Object{zzC09PoolObj(scope, a1, "x0", false)}
 	} else {
 		objs = []slip.Object{zzC09PoolObj(scope, a0, "x0", false), zzC09PoolObj(scope, a1, "x1", false)}
